@@ -141,5 +141,5 @@ def mixed_oracle(c, ans):
 def check(run):
     cases = gen(run) + label_dependent_cases(run)
     return asmfam.run_family(run, "C07", cases, oracle,
-                             "shrinking values (%push(K - L) that needs its wider early width no longer at the end: bytes must still agree with the layout); cascades (auto-sized pushes of L*m+k that settle only after several widening rounds: one push growing twice, searched 2-4 push programs needing more rounds than pushes; exact value checked against the decoded position of the label); values 256^k-1, 256^k, 256^k+1 for k=0..33, negatives, random; each in up to 11 spellings (4 radices, sum, product, parenthesised, expression macro, macro argument, before/after labels); distinct = distinct sources",
+                             "shrinking values (%push(K - L) that needs its wider early width no longer at the end: bytes must still agree with the layout); cascades (auto-sized pushes of L*m+k that settle only after several widening rounds: one push growing twice, searched 2-4 push programs needing more rounds than pushes; exact value checked against the decoded position of the label); values 256^k-1, 256^k, 256^k+1 for k=0..33, negatives, random; each in up to 11 spellings (4 radices, sum, product, parenthesised, expression macro, macro argument, before/after labels); constants placed after one or two label-dependent %pushes (each constant must keep its own minimal width); distinct = distinct sources",
                              "auto-sized pushes")
